@@ -90,7 +90,8 @@ TEXT["C07"] = ("Ownership theorem on whole histories (OwnProofs): starting from 
                "whichever allocations throw, the ledger has recorded no double free, no free with a wrong size and no free through an "
                "unequal allocator, every vector owns a live block of exactly its recorded size from an allocator equal to its own, no block "
                "has two owners, every live data block has an owner, and once all vectors are destroyed no data block is live "
-               "(invariant WOwn preserved by every operation). Pointer-level theorems for allocation, release, reallocation and both "
+               "(invariant WOwn preserved by every operation); the same for histories that mix vector operations with all operations on "
+               "standalone ContiguousElements, every vector and element being an owner (ElemOwnProofs). Pointer-level theorems for allocation, release, reallocation and both "
                "assignments. The statement is FALSE for the offset table of VaryingSize vectors: kernel-checked counter-witness (known "
                "finding). Correspondence: ledger allocator that checks allocator identity, size and alignment on every deallocate and "
                "guard zones of every live block after every operation, over the assignment matrix and element operations.")
